@@ -371,7 +371,7 @@ func oracleC15Lines(lines []string, final string) string {
 	return ""
 }
 
-var linePool = []string{"# c", "#", "#  ", "## d #", "A := \"x\\y\"", "B := A", "task a() {\n    b\n}", "task c() { d }", "", "task e(a) -> \"o\" {\n}"}
+var linePool = []string{"# c", "#", "#  ", "## d #", "A := \"x\\y\"", "B := A", "task a() {\n    b\n}", "task c() { d }", "", "task e(a) -> \"o\" {\n}", "task f() {\n    g  \n    h \t\n}", "task i() { j   }"}
 
 // lineSequences: comments in every position.
 func lineSequences(maxLines int, f func(string)) {
